@@ -5,3 +5,5 @@ R = Registry()
 
 from . import externals  # noqa: E402,F401
 from . import ip_core    # noqa: E402,F401
+from . import juniper    # noqa: E402,F401
+from . import as_numbers  # noqa: E402,F401
